@@ -137,6 +137,10 @@ func cbHistory(prop string) func(r *core.Run, idx int, rng *rand.Rand) {
 				if sc.S.Binding == spsim.BindRedirect {
 					want = "redirect"
 				}
+				if d.Kind != "form" && d.Kind != "redirect" {
+					r.Count("history_reply_not_handed_to_the_browser_for_delivery", 1)
+					continue // a message returned in the body has no target
+				}
 				if d.Kind != want {
 					viol("delivery_binding", fmt.Sprintf("stored binding %s but reply delivered as %s", bindName(sc.S.Binding), d.Kind))
 					continue
